@@ -691,3 +691,75 @@ func signalAfterReleases(out *scenOut, n int, sig syscall.Signal) {
 		out.fail(finding{Property: "C18", Class: "new", What: "wrong Run result after a signal", Input: desc, Expected: want, Observed: got})
 	}
 }
+
+// stepReader answers each Read from a queue the scenario fills: data, io.EOF or an error.
+type stepReader struct {
+	ch chan stepRead
+}
+type stepRead struct {
+	data []byte
+	err  error
+}
+
+func (s *stepReader) Read(p []byte) (int, error) {
+	r, ok := <-s.ch
+	if !ok {
+		return 0, io.EOF
+	}
+	return copy(p, r.data), r.err
+}
+
+// readErrAfterExec: an input read error ends Run with the reader's error - also when it comes
+// from the SECOND (third …) read loop of the program's life, the one started after an Exec gave
+// the terminal back. The first read loop ended by end of input before the Exec.
+func readErrAfterExec(out *scenOut, nexec int) {
+	ctl := newRecCtl()
+	in := &stepReader{ch: make(chan stepRead, 8)}
+	fe := &fakeExec{run: func(f *fakeExec) error { return nil }}
+	ctl.onUpdate = func(m tea.Msg, v int) tea.Cmd {
+		if u, ok := m.(userMsg); ok && u.Sender == 9 {
+			return tea.Exec(fe, func(err error) tea.Msg { return execDoneMsg{Tag: fmt.Sprint(u.Seq), Err: err} })
+		}
+		return nil
+	}
+	run := startProgram(ctl, nil, tea.WithInput(in), tea.WithoutSignalHandler())
+	desc := fmt.Sprintf("key, end of input, %d Exec(s), key, then a read error (from the read loop started after the last Exec)", nexec)
+	keyA, keyB := "key type=-1 alt=false paste=false runes=[97]", "key type=-1 alt=false paste=false runes=[98]"
+	in.ch <- stepRead{data: []byte("a")}
+	in.ch <- stepRead{err: io.EOF}
+	if !waitFor(3*time.Second, func() bool { return ctl.log.has("update-exit", keyA) }) {
+		run.p.Kill()
+		run.wait(3 * time.Second)
+		return
+	}
+	time.Sleep(30 * time.Millisecond) // the read loop has seen end of input and returned
+	for k := 0; k < nexec; k++ {
+		run.p.Send(userMsg{9, k})
+		if !waitFor(3*time.Second, func() bool { return ctl.log.has("update-exit", fmt.Sprintf("execdone:%d", k)) }) {
+			out.fail(finding{Property: "C17", Class: "new", What: "the callback message of an Exec was not delivered", Input: desc})
+			run.p.Kill()
+			run.wait(3 * time.Second)
+			return
+		}
+		if k+1 < nexec {
+			in.ch <- stepRead{err: io.EOF} // this read loop ends as well
+			time.Sleep(30 * time.Millisecond)
+		}
+	}
+	out.record(fmt.Sprintf("read-error-after-exec/%d", nexec), desc)
+	in.ch <- stepRead{data: []byte("b")}
+	if !waitFor(3*time.Second, func() bool { return ctl.log.has("update-exit", keyB) }) {
+		out.fail(finding{Property: "C17", Class: "new", What: "input is not read again after an Exec", Input: desc, Expected: "the key typed after the command reaches Update", Observed: "no key message within 3s"})
+	}
+	in.ch <- stepRead{err: errInjectedRead}
+	if !run.wait(4 * time.Second) {
+		out.fail(finding{Property: "C04", Class: "new", What: "Run did not return after an input read error (the error came from a read loop started after an Exec)", Input: desc,
+			Expected: "Run returns the reader's error", Observed: "still running after 4s"})
+		run.p.Kill()
+		run.wait(3 * time.Second)
+		return
+	}
+	if !errors.Is(run.err, errInjectedRead) {
+		out.fail(finding{Property: "C04", Class: "new", What: "wrong Run result after an input read error", Input: desc, Expected: "the reader's error", Observed: fmt.Sprint(run.err)})
+	}
+}
